@@ -434,6 +434,7 @@ def run(check, repo: Repo) -> None:
 
     # ---- R11 raw-array probe falls back on every failure ------------------------------------
     _rule_probe_handlers(check, repo)
+    _rule_numeric_key_order(check, repo)
 
     # ---- R12 no cross-call state in the codec: caches are keyed on everything the cached value depends on --------
     from ..domains.memo import memo_findings, persistent_containers
@@ -759,6 +760,26 @@ def _rule_array_classes(check, repo: Repo) -> None:
     if arrp is None:
         raise AnalysisError("_write_ndarray: unexpected signature")
     rarr = rfn.args.args[0].arg
+    # the value that is classified and written is the caller's array: every rebinding of the parameter is a shape- and dtype-preserving conversion
+    PRESERVING = {"np.asarray", "np.asanyarray", "np.array", "np.copy", "np.require", f"{arrp}.copy", f"{arrp}.view"}
+    RESHAPING = {"np.ascontiguousarray": "returns at least one dimension: a 0-d array becomes shape (1,)", "np.asfortranarray": "returns at least one dimension: a 0-d array becomes shape (1,)",
+                 "np.atleast_1d": "adds a dimension to a 0-d array", "np.atleast_2d": "adds dimensions", "np.atleast_3d": "adds dimensions", "np.ravel": "flattens", "np.squeeze": "drops unit axes",
+                 f"{arrp}.ravel": "flattens", f"{arrp}.flatten": "flattens", f"{arrp}.squeeze": "drops unit axes", f"{arrp}.reshape": "changes the shape", "np.reshape": "changes the shape"}
+    n_rebind = 0
+    for st in walk_no_nested_defs(wfn):
+        if isinstance(st, ast.Assign) and any(isinstance(t, ast.Name) and t.id == arrp for t in st.targets):
+            n_rebind += 1
+            v = st.value
+            cn = call_name(v) if isinstance(v, ast.Call) else None
+            extra = [k.arg for k in v.keywords if k.arg in ("dtype", "ndmin") and not (k.arg == "dtype" and unparse(k.value) == f"{arrp}.dtype")] if isinstance(v, ast.Call) else []
+            if cn in RESHAPING:
+                check.violated("C01-R6", f"_write_ndarray: `{arrp}` is rebound by a shape-preserving conversion", f"`{unparse(st)[:70]}`: {cn} {RESHAPING[cn]} — the array is stored (and loaded) "
+                               f"with a different shape than it was given", mod.line(st), definite=True)
+            elif cn in PRESERVING and not extra and v.args and unparse(v.args[0]) == arrp or (cn in (f"{arrp}.copy", f"{arrp}.view") and not v.args):
+                check.holds("C01-R6", f"_write_ndarray: `{arrp}` is rebound by a shape-preserving conversion", cn or "", mod.line(st))
+            else:
+                raise AnalysisError(f"_write_ndarray: rebinding `{unparse(st)[:70]}` of the array parameter is not in the conversion tables")
+    check.floor("_write_ndarray: rebindings of the array parameter", n_rebind, 1)
     classes = {
         "0-d": {"name": "0-d", "ndim0": True, "anyzero": False},
         "zero-extent": {"name": "zero-extent", "ndim0": False, "anyzero": True},
@@ -999,6 +1020,35 @@ def _rule_sequence_order(check, repo: Repo) -> None:
                      fail_detail=f"{why}: sequences with more than ten element-wise encoded entries come back permuted")
 
 
+def _rule_numeric_key_order(check, repo: Repo) -> None:
+    """R13: sequence elements are stored under the keys '0', '1', … — strings.  Every order-sensitive aggregate over those keys (max / min /
+    sorted / .sort) must compare integers: '9' > '10' as strings, so a length taken from the lexicographic maximum truncates every sequence of
+    more than ten elements."""
+    n = 0
+    for q in (f"{SER}:AutoSerialize._deserialize_container", f"{SER}:AutoSerialize._recursive_load"):
+        mod, fn = repo.func(q)
+        for c in ast.walk(fn):
+            if not (isinstance(c, ast.Call) and (call_name(c) or "") in ("max", "min", "sorted") and c.args):
+                continue
+            it = c.args[0]
+            if not isinstance(it, (ast.GeneratorExp, ast.ListComp, ast.SetComp)) or len(it.generators) != 1:
+                continue
+            g = it.generators[0]
+            digit_filtered = any(isinstance(x, ast.Call) and isinstance(x.func, ast.Attribute) and x.func.attr in ("isdigit", "isdecimal", "isnumeric") for f_ in g.ifs for x in ast.walk(f_))
+            over_keys = any(isinstance(x, ast.Call) and isinstance(x.func, ast.Attribute) and x.func.attr in ("array_keys", "group_keys", "keys") for x in ast.walk(g.iter)) \
+                or any(isinstance(x, ast.Attribute) and x.attr == "attrs" for x in ast.walk(g.iter))
+            if not (digit_filtered and over_keys and isinstance(g.target, ast.Name)):
+                continue
+            n += 1
+            keyf = next((k.value for k in c.keywords if k.arg == "key"), None)
+            numeric = (isinstance(it.elt, ast.Call) and call_name(it.elt) == "int") or (keyf is not None and unparse(keyf) == "int")
+            bare = isinstance(it.elt, ast.Name) and it.elt.id == g.target.id and keyf is None
+            check.decide(numeric, "C01-R13", f"{q.split('.')[-1]}: `{call_name(c)}` over the digit keys compares integers", unparse(it.elt), mod.line(c), definite=bare,
+                         fail_detail=f"`{call_name(c)}(… {unparse(it.elt)} for {g.target.id} in <keys> if {g.target.id}.isdigit() …)` orders the key STRINGS: '9' > '10', so a list / tuple / set "
+                                     f"of more than ten elements is read back truncated to ten (or 100, …) without any error")
+    check.floor("order-sensitive aggregates over digit keys", n, 2)
+
+
 def _rule_probe_handlers(check, repo: Repo) -> None:
     """R11: `dill.loads(gzip.decompress(raw array bytes))` is a *probe* — plain arrays are expected to
     fail it, and arbitrary bytes can make gzip/pickle raise any exception class (EOFError on empty input,
@@ -1111,3 +1161,4 @@ MANIFEST = {
     "technique": "codec-schema extraction + writer/reader set agreement + first-match dispatch evaluation (AST)",
 }
 MANIFEST["text"] += ' Also: element-wise encoded sequences are decoded in numeric index order (R10); the gzip+dill probe on raw array bytes falls back on every exception (R11).'
+MANIFEST["text"] += " R13: order-sensitive aggregates (max/min/sorted) over the digit-string element keys compare integers ('9' > '10' as strings). R6 also requires every rebinding of the array parameter in _write_ndarray to be a shape-preserving conversion (np.ascontiguousarray / atleast_nd / ravel … change the rank of a 0-d array)."
